@@ -559,7 +559,7 @@ EXPLANATION = ("History property reduced by a z3-checked induction lemma to a fr
                "replay of request histories against fresh parses.")
 MANIFEST = {
     "category": "other",
-    "text": "The history property is reduced by a z3-checked induction lemma to a frame: a flatten/generate request writes no object of the parsed tree (except the unqualified-import memo, proved to cache the reference that matched). The frame is carried by contracts checked on the real source every run: tree.flatten's real body (callees under contract) flattens the result of copy_including_children, never the tree's class object; Class.find_class copies by default; the constant-reference listener stores a deep copy of a found constant, never the tree's Symbol; TreeWalker.skip_child skips `parent` for every attribute name (symbolic string); Class._find_class's memo is the matching reference for every found/not-found pattern of 1..3 wildcard packages; and an ownership def-use contract over tree.py, the back ends and tools/compiler.py allows parsed-tree-denoting expressions (.parent, find_class(copy=False), _find_class, find_constant_symbol) only in parent links, read-only lookups, None tests or deep copies. A bounded replay runs request histories (repeat, ordered pairs, there-and-back, back ends interleaved, CLI alone vs together) on generated libraries and every class of every test model against fresh parses.",
+    "text": "The history property is reduced by a z3-checked induction lemma to a frame: a flatten/generate request writes no object of the parsed tree (except the unqualified-import memo, proved to cache the reference that matched). The frame is carried by contracts checked on the real source every run: tree.flatten's real body (callees under contract) flattens the result of copy_including_children, never the tree's class object; Class.find_class copies by default; the constant-reference listener stores a deep copy of a found constant, never the tree's Symbol; TreeWalker.skip_child skips `parent` for every attribute name (symbolic string); Class._find_class's memo is the matching reference for every found/not-found pattern of 1..3 wildcard packages; and an ownership def-use contract over tree.py, the back ends and tools/compiler.py allows parsed-tree-denoting expressions (.parent, find_class(copy=False), _find_class, find_constant_symbol) only in parent links, read-only lookups, None tests or deep copies. A bounded replay runs request histories (repeat, ordered pairs, there-and-back, back ends interleaved, CLI alone vs together) on generated libraries and every class of every test model against fresh parses. No function of tree.py / ast.py writes to a container bound at module level (def-use).",
     "note": "Static sufficient condition plus bounded replay, not a proof that flatten_class's interior writes nothing of the tree; three genuine defects were repaired (fix: commits c34baa2, 774e287, b86ae9c).",
     "technique": "contract-based verification: frame / ownership contracts on the real functions (symbolic execution of the real bodies with callees under contract, syntactic def-use obligations over the real AST), z3 history-induction lemma; bounded replay as stand-in for the interior of flatten_class",
 }
